@@ -136,7 +136,13 @@ pub fn run(case: &J) -> J {
     if case.get("no_unused_check").and_then(|b| b.as_bool()).unwrap_or(false) {
         config.disable_unused_expression_check();
     }
-    let state = TypeState::default();
+    let ekind = case.get("ekind").filter(|k| !k.is_null()).map(kind_from_json);
+    let mkind = case.get("mkind").filter(|k| !k.is_null()).map(kind_from_json);
+    let any_obj = || Kind::object(vrl::value::kind::Collection::any());
+    let ekind0 = ekind.clone().unwrap_or_else(any_obj);
+    let mkind0 = mkind.clone().unwrap_or_else(any_obj);
+    let mut state = TypeState::default();
+    state.external = ExternalEnv::new_with_kind(ekind0.clone(), mkind0.clone());
     let compiled = std::panic::catch_unwind(std::panic::AssertUnwindSafe(|| {
         vrl::compiler::compile_with_state(&src, &fns, &state, config)
     }));
